@@ -181,6 +181,10 @@ def translate(body, plist, want_index):
             env[m.group(2)] = (("(%s mod W%d)" % (t, wd)) if w > wd else t, wd); continue
         m = re.match(r"^om_assert\s*\((.*)\)$", s, re.S)
         if m:
+            # a status assertion on the return code of a LAPACK call (local `int X`; `om_assert(X==0)`) is not an argument guard
+            ms = re.match(r"^\s*(\w+)\s*==\s*0\s*$", m.group(1))
+            if ms and re.search(r"\b(?:int|BLAS_INT)\s+%s\b" % re.escape(ms.group(1)), body) and ms.group(1) not in env:
+                continue
             pr = Parser(tokens(m.group(1)), env, objs); t, w = pr.parse(); used |= pr.used
             if w != 0: raise Problem("om_assert of a non-boolean `%s`" % m.group(1))
             guards.append(t); continue
